@@ -105,6 +105,7 @@ type c10Feat struct {
 	rawBOM, loneSur, dupDiff, dupSame, outOfRange bool
 	keyNFC                                        bool // some member name is not in Unicode NFC
 	nfcExplains                                   bool // … and normalising the names explains the observed result
+	rejected                                      bool // the observed failure is a rejection (an error), not different data
 	depth                                         int
 	nodes                                         int
 }
@@ -215,8 +216,9 @@ func (f c10Feat) classify(doc []byte, run func([]byte) (pass bool, nfc bool)) st
 	}
 	cls := ""
 	switch {
-	case f.outOfRange:
-		cls = "number-exponent-out-of-apd-range"
+	case f.outOfRange && f.rejected:
+		// only a REJECTION is the known finding; a number that silently changes value is not
+		cls = "number-exponent-out-of-apd-range-rejected"
 	case f.dupDiff:
 		cls = "duplicate-key-differing-values"
 	case f.keyNFC:
@@ -336,6 +338,7 @@ func c10CheckDoc(c *Cfg, ctx *cue.Context, doc []byte, origin string) bool {
 	ok, why, out := pass(doc)
 	cls := ""
 	if !ok {
+		f.rejected = strings.HasPrefix(why, "rejected")
 		cls = f.classify(doc, func(dd []byte) (bool, bool) {
 			ok2, _, _ := pass(dd)
 			return ok2, !ok2 && f.keyNFC && c10NFCExplains(ctx, dd)
@@ -852,6 +855,7 @@ func c10Production(c *Cfg, r *Rng) {
 		}
 		cls := ""
 		if !ok {
+			f.rejected = errs != ""
 			cls = f.classify(doc, func(dd []byte) (bool, bool) {
 				o, e := c10ProdDecode(ctx, dd)
 				w, _, _ := c10Analyse(dd)
